@@ -1254,17 +1254,29 @@ def tier_config(tier):
 
 
 def required_probes(tier, cfg):
+    """Reach probes that depend only on the workload and the scheduler: stuck at zero means
+    the machinery no longer does what it claims (exit 2)."""
+    need = ["preempt_inside_parse", "two_clients_inside_parse", "gc_pass",
+            "lingering_exception", "preemption", "blocked_on_busy_instance"]
+    if cfg.get("opts", {}).get("shorthand"):
+        need.append("preempt_inside_shorthand_parse")
+    return need
+
+
+def expected_probes(tier, cfg):
+    """Reach probes that also depend on how the library reacts (it raises on bad input,
+    an aborted parse leaves its token stream suspended, SLY keeps stacks, ...).  A change
+    that keeps the property can legitimately make one of them unreachable - e.g. a parser
+    that closes its token stream when it fails - so zero is reported, not failed."""
     need = [
         "gc_victim_in_action_same_thread", "prompt_close_victim_in_action",
         "parser_reentered_with_leftover_stacks", "lexer_reused_after_abort",
         "lexer_reused_after_partial", "instance_handover_after_abort",
         "rewriter_aborted_then_instances_reused", "preempt_inside_token_action",
-        "preempt_inside_restart", "preempt_inside_reduction", "two_clients_inside_parse",
+        "preempt_inside_restart", "preempt_inside_reduction",
         "consumer_abort", "action_abort", "producer_abort", "abandoned_partial_stream",
-        "lingering_exception", "gc_pass_finalised_stream", "prompt_finalisation",
+        "gc_pass_finalised_stream", "prompt_finalisation",
     ]
-    if cfg.get("opts", {}).get("shorthand"):
-        need.append("preempt_inside_shorthand_parse")
     if tier == "thorough":
         need.append("gc_victim_in_action_other_thread")
     return need
